@@ -446,5 +446,13 @@ func (u *Unit) distinctAxioms() []Term {
 		sort.Strings(ns)
 		out = append(out, Term{"(distinct " + strings.Join(ns, " ") + ")", SBool})
 	}
+	if len(u.methodConsts) > 0 {
+		ns := []string{"nil_Fn"}
+		for n := range u.methodConsts {
+			ns = append(ns, n)
+		}
+		sort.Strings(ns)
+		out = append(out, Term{"(distinct " + strings.Join(ns, " ") + ")", SBool})
+	}
 	return out
 }
